@@ -533,6 +533,13 @@ const XMLCh* DOMNodeImpl::lookupNamespaceURI(const XMLCh* specifiedPrefix) const
     short type = thisNode->getNodeType();
     switch (type) {
     case DOMNode::ELEMENT_NODE : {
+        // the prefixes xml and xmlns are bound by definition (Namespaces in XML, section 3)
+        if (specifiedPrefix != 0) {
+            if (XMLString::equals(specifiedPrefix, XMLUni::fgXMLString))
+                return XMLUni::fgXMLURIName;
+            if (XMLString::equals(specifiedPrefix, XMLUni::fgXMLNSString))
+                return XMLUni::fgXMLNSURIName;
+        }
         const XMLCh* ns = thisNode->getNamespaceURI();
         const XMLCh* prefix = thisNode->getPrefix();
         if (ns != 0) {
